@@ -84,19 +84,24 @@ def new_market(st0, int_sizes):
     broker = Broker()
     m = DeribitOptionMarket(MarketInfo("opt", MarketTypeEnum.deribit_option), DeribitOptionMarket.ETH)
     broker.add_market(m)
-    broker.set_balance(DeribitOptionMarket.ETH, 1000)
-    set_status(m, st0["book"], st0["info"], 0, int_sizes)
+    # the spec's wallet is what is left in the broker after the initial option cash has been deposited
+    broker.set_balance(DeribitOptionMarket.ETH, dec(st0["wallet"] + st0["cash"]))
+    set_status(m, st0["book"], st0["info"], 0, int_sizes, st0["open"], st0["hour"])
     if st0["cash"] != 0:
         m.deposit(dec(st0["cash"]))
+    if st0["hour"]:
+        m.get_market_balance()  # the bar loop values the account on every bar; on an hour bar this is what later closed bars freeze
     return m
 
 
-def set_status(m, book, info, k, int_sizes):
+def set_status(m, book, info, k, int_sizes, is_open=True, hour=True):
     import pandas as pd
     from demeter.deribit import DeribitMarketStatus
     from ..deribit_util import T0, book_frame
-    m.set_market_status(DeribitMarketStatus(timestamp=T0 + pd.Timedelta(hours=k), data=book_frame(book, info, int_sizes)),
-                        price=pd.Series([2000], index=["ETH"]))
+    ts = T0 + pd.Timedelta(hours=k) + (pd.Timedelta(0) if hour else pd.Timedelta(minutes=30))
+    m.set_market_status(DeribitMarketStatus(timestamp=ts, data=book_frame(book, info, int_sizes)), price=pd.Series([2000], index=["ETH"]))
+    if not is_open:  # an hour whose row is missing from market.data (the base class derives the flag from the data index)
+        m.is_open = False
 
 
 def apply_event(m, ev, info, int_sizes, nref):
@@ -109,7 +114,7 @@ def apply_event(m, ev, info, int_sizes, nref):
     if op == "withdraw":
         return m.withdraw(dec(ev["amt"]))
     if op == "refresh":
-        set_status(m, ev["book"], info, nref + 1, int_sizes)
+        set_status(m, ev["book"], info, nref + 1, int_sizes, ev.get("open", True), ev.get("hour", True))
         return None
     raise ValueError(op)
 
@@ -273,8 +278,13 @@ def replay_states(states, variant="float", stop_after=None) -> Out:
             viol(entry, "book_shrinks_by_fills_until_refresh", cls, f"{ev_str(ev)}: visible book differs: {d}", j)
             stop = True
         o.count("equity_is_cash_plus_positions_at_mark")
-        eq = frac(m.get_market_balance().net_value)
-        if eq != last["eq"]:
+        bal = m.get_market_balance()
+        eq = None if bal is None else frac(bal.net_value)
+        if eq is None:
+            viol("DeribitOptionMarket.get_market_balance", "equity_is_cash_plus_positions_at_mark", "no_balance_before_first_hour_bar",
+                 f"after {ev_str(ev)}: get_market_balance() returned None (no hour bar seen yet), spec equity {float(last['eq'])}", j)
+            stop = True
+        elif eq != last["eq"]:
             viol("DeribitOptionMarket.get_market_balance", "equity_is_cash_plus_positions_at_mark", cls,
                  f"after {ev_str(ev)}: equity {eq} (= {float(eq)}), spec cash + sum amount * Quantize6(mark) = {last['eq']} (= {float(last['eq'])})", j)
             stop = True
